@@ -1,10 +1,18 @@
 package main
 
 import (
+	"context"
 	"encoding/json"
 	"fmt"
 	"reflect"
 	"strings"
+
+	corev1 "k8s.io/api/core/v1"
+	metav1 "k8s.io/apimachinery/pkg/apis/meta/v1"
+	"sigs.k8s.io/controller-runtime/pkg/client"
+	"sigs.k8s.io/controller-runtime/pkg/client/fake"
+
+	terwayTypes "github.com/AliyunContainerService/terway/types"
 
 	jsonpatch "github.com/evanphx/json-patch"
 
@@ -91,6 +99,14 @@ func c20Merge(c *Ctx, op string) string {
 		if (err1 == nil) != (errRef == nil) {
 			c.Violate("C20/merge/error-mismatch", fmt.Sprintf("MergeConfigAndUnmarshal error=%v, RFC 7396 reference error=%v", err1, errRef), op)
 		}
+		// the control plane's way to the same configuration (ConfigFromConfigMap: the cluster ConfigMap, over it the ConfigMap the node's
+		// terway-config label names): the overlay applied there must give what the already-merged document gives on its own
+		viaLabel, errL := cfgFromConfigMaps(string(bj), string(tj))
+		merged, errM := cfgFromConfigMaps(string(mustJSON(ref)), "")
+		if len(bj) > 2 && ((errL == nil) != (errM == nil) || (errL == nil && !reflect.DeepEqual(viaLabel, merged))) {
+			c.Violate("C20/merge/node-configmap-not-applied", fmt.Sprintf("ConfigFromConfigMap with the node's dynamic ConfigMap gives %+v (err %v), the merged document alone gives %+v (err %v)", viaLabel, errL, merged, errM), op)
+		}
+		c.Count("merge-via-node-configmap")
 		if err1 == nil && errRef == nil {
 			cfg2, err2 := daemon.MergeConfigAndUnmarshal(tj, mustJSON(ref))
 			if err2 != nil || !reflect.DeepEqual(cfg1, cfg2) {
@@ -99,6 +115,19 @@ func c20Merge(c *Ctx, op string) string {
 		}
 	}
 	return out
+}
+
+// cfgFromConfigMaps runs the real daemon.ConfigFromConfigMap for node n1 over a fake API server holding kube-system/eni-config
+// (eni_conf = base) and, if overlay is not empty, kube-system/dyn (eni_conf = overlay) with the node labelled terway-config=dyn.
+func cfgFromConfigMaps(base, overlay string) (*daemon.Config, error) {
+	node := &corev1.Node{ObjectMeta: metav1.ObjectMeta{Name: "n1", Labels: map[string]string{}}}
+	objs := []client.Object{node, &corev1.ConfigMap{ObjectMeta: metav1.ObjectMeta{Namespace: "kube-system", Name: "eni-config"}, Data: map[string]string{"eni_conf": base}}}
+	if overlay != "" {
+		node.Labels["terway-config"] = "dyn"
+		objs = append(objs, &corev1.ConfigMap{ObjectMeta: metav1.ObjectMeta{Namespace: "kube-system", Name: "dyn"}, Data: map[string]string{"eni_conf": overlay}})
+	}
+	cl := fake.NewClientBuilder().WithScheme(terwayTypes.Scheme).WithObjects(objs...).Build()
+	return daemon.ConfigFromConfigMap(context.Background(), cl, "n1")
 }
 
 // runChainDriver executes the chain ops through the tagged test driver of cmd/terway-cli in private
